@@ -98,7 +98,15 @@ class Transform(Unit):
                         spec.cl[i] = 0.0
                         spec.cu[i] = g.rng.choice([INF, 2.0, 0.5, 0.0])
                 omit = True
+            if spec.m > 0 and k % 12 == 9:
+                i = g.rng.randrange(spec.m)            # a free row (no bound at all) is a row with a free slack
+                spec.cl[i], spec.cu[i] = -INF, INF
             sc = gen_scaling(g, spec)
+            if sc is not None and k % 10 == 3:
+                # only the rows are scaled: the multiplier still has to be un-scaled for the Hessian
+                sc["vw"] = [0] * spec.n
+                sc["ow"] = 0
+                sc["cw"] = [g.rng.choice([-3, -2, -1, 1, 2, 3]) for _ in range(spec.m)]
             if sc is not None and k % 13 == 7:
                 # a finite bound whose SCALED value is astronomically large is still a bound
                 j = g.rng.randrange(spec.n)
